@@ -30,6 +30,8 @@ def arm_eval(ret, env, concrete):
     def test(c):
         if is_t(c, "isinst"):
             return conc(c[1])
+        if is_t(c, "call") and is_t(c[1], "attr") and c[1][2] == "is_scalar":
+            return True  # the table's operands are scalars (Python bools and 0-d arrays); vector flags behave elementwise like these
         if is_t(c, "bool"):
             vs = [test(x) for x in c[2]]
             return all(vs) if c[1] == "and" else any(vs)
